@@ -137,11 +137,12 @@ structure Fixes where
   cdataRef : Bool       -- writeCDATAChars leaves the section to write CR / NEL / LSEP / XML 1.1 restricted characters as references
   rejectNonChar : Bool  -- `throwIfNotACharacter`: unpaired low surrogate, U+FFFE, U+FFFF, NUL are errors
   utf16Pairs : Bool     -- XalanUTF16Writer::write(chars, start, length) validates and consumes surrogate pairs
+  bulkCheck : Bool      -- `throwIfNotCharacters`: names, PI targets, raw text, DOCTYPE name are checked before the bulk write
   deriving DecidableEq, Repr
 
-def Fixes.asWritten : Fixes := ⟨false, false, false, false⟩
-def Fixes.all : Fixes := ⟨true, true, true, true⟩
-def Fixes.generated : Fixes := ⟨fixNormLiteral, fixCdataRef, fixRejectNonChar, fixUtf16Pairs⟩
+def Fixes.asWritten : Fixes := ⟨false, false, false, false, false⟩
+def Fixes.all : Fixes := ⟨true, true, true, true, true⟩
+def Fixes.generated : Fixes := ⟨fixNormLiteral, fixCdataRef, fixRejectNonChar, fixUtf16Pairs, fixBulkCheck⟩
 
 structure Enc where
   kind : WK
@@ -218,16 +219,6 @@ def wConst (e : Enc) (us : List Nat) : List Item :=
   | .utf16 => [.bulk us]
   | .other => us.flatMap (otherChar e)
 
-/-- `m_writer.write(const XalanDOMString&)` / `write(const XalanDOMChar*, size_type)` -/
-def wStr (e : Enc) (us : List Nat) : Out :=
-  match e.kind with
-  | .utf8 => utf8Units us
-  | .utf16 => .ok [.bulk us]
-  | .other => .ok (us.flatMap (otherChar e))
-
-/-- `outputNewline()`: `write(m_newlineString, m_newlineStringLength)` with the string "\n" -/
-def wNewline (e : Enc) : Out := wStr e [10]
-
 /-- result of writing one code point: the items and whether `chars[start+1]` was consumed too -/
 abbrev CP := Except Err (List Item × Bool)
 
@@ -260,6 +251,31 @@ def wCP (e : Enc) (throwing : Bool) (c : Nat) (rest : List Nat) : CP :=
     else if throwing then .error .unrep
     else pure (otherNCR v, two)
 
+/-- `XalanOtherEncodingWriter::write(const XalanDOMChar*, n)` as repaired:
+`for (i = 0; i < n; ++i) i = write(theChars, i, n, m_charRefFunctor)` — a surrogate pair is decoded first and is
+representable or gets one character reference -/
+def otherBulkLoop (e : Enc) : List Nat → Bool → Out
+  | [], _ => .ok []
+  | _ :: rest, true => otherBulkLoop e rest false        -- unit already consumed as a low surrogate
+  | c :: rest, false => do
+    let (it, two) ← wCP e false c rest
+    let b ← otherBulkLoop e rest two
+    pure (it ++ b)
+
+/-- the same loop as written before the repair: `write(theChars[i])` for every UTF-16 unit by itself -/
+def otherBulkUnits (e : Enc) (us : List Nat) : List Item := us.flatMap (otherChar e)
+
+/-- `m_writer.write(const XalanDOMString&)` / `write(const XalanDOMChar*, size_type)`; for the transcoding writer the
+variant the translator read from the source (`otherBulkPairAware`) -/
+def wStr (e : Enc) (us : List Nat) : Out :=
+  match e.kind with
+  | .utf8 => utf8Units us
+  | .utf16 => .ok [.bulk us]
+  | .other => if otherBulkPairAware then otherBulkLoop e us false else .ok (otherBulkUnits e us)
+
+/-- `outputNewline()`: `write(m_newlineString, m_newlineStringLength)` with the string "\n" -/
+def wNewline (e : Enc) : Out := wStr e [10]
+
 /-- `XalanOtherEncodingWriter::writeNameChar`: `for (i = 0; i < n; ++i) i = write(data, i, n, exception)` -/
 def otherNameLoop (e : Enc) : List Nat → Bool → Out
   | [], _ => .ok []
@@ -272,11 +288,37 @@ def otherNameLoop (e : Enc) : List Nat → Bool → Out
 def otherName (e : Enc) (us : List Nat) : Out := otherNameLoop e us false
 
 /-- `m_writer.writeNameChar(name, length(name))` -/
-def wName (e : Enc) (us : List Nat) : Out :=
+def wNameRaw (e : Enc) (us : List Nat) : Out :=
   match e.kind with
   | .utf8 => utf8Units us
   | .utf16 => .ok [.bulk us]
   | .other => otherName e us
+
+/-- `throwIfNotCharacters(chars, n)`: a string handed to a bulk write must be well-formed UTF-16 without U+0000, U+FFFE,
+U+FFFF — the same test, unit by unit, as `throwIfNotACharacter` + the writers' pair check on the positional path -/
+def checkLoop : List Nat → Bool → Except Err Unit
+  | [], _ => .ok ()
+  | _ :: rest, true => checkLoop rest false               -- the low half of a pair just accepted
+  | c :: rest, false =>
+    if isHigh c then
+      match rest with
+      | l :: _ => if isLow l then checkLoop rest true else .error .surrogate
+      | [] => .error .surrogate
+    else if isLow c then .error .surrogate
+    else if c = 0 ∨ c ≥ 0xFFFE then .error .forbidden
+    else checkLoop rest false
+
+def checkBulk (e : Enc) (us : List Nat) : Except Err Unit := if e.fx.bulkCheck then checkLoop us false else .ok ()
+
+/-- `writeName(name)` of the formatter: the check (when present), then `m_writer.writeNameChar` -/
+def wName (e : Enc) (us : List Nat) : Out := do
+  checkBulk e us
+  wNameRaw e us
+
+/-- `charactersRaw`: the check (when present), then `m_writer.write(chars, length)` -/
+def wRaw (e : Enc) (us : List Nat) : Out := do
+  checkBulk e us
+  wStr e us
 
 /-! ## FormatterToXMLUnicode: escaping -/
 
@@ -538,6 +580,7 @@ def writeXMLHeader (c : Cfg) : Out :=
 /-- `generateDoctypeDecl(name)` / `writeDoctypeDecl(name)` at the first start tag (only with a system identifier) -/
 def doctypeItems (c : Cfg) (name : List Nat) : Out :=
   if c.doctypeSystem.isEmpty then pure [] else do
+    checkBulk c.enc name
     let n ← wStr c.enc name
     let pub ← if c.doctypePublic.isEmpty then pure (wConst c.enc (dtSystem c.enc)) else do
       let p ← wName c.enc c.doctypePublic
@@ -587,7 +630,7 @@ def stepEvent (c : Cfg) (st : List Bool) : Event → Except Err (List Item × Li
       pure (p ++ t, st1)
   | .charactersRaw s => do
     let (p, st1) := parentTagEnd c.enc st
-    let t ← wStr c.enc s
+    let t ← wRaw c.enc s
     pure (p ++ t, st1)
   | .comment data => do
     let (p, st1) := parentTagEnd c.enc st
